@@ -4,8 +4,8 @@
    coq/C13/alt/ExitTruth.v.txt (count_stats position-aware) or alt/ExitRefuted.v.txt (substring). *)
 From Coq Require Import ZArith List String Bool.
 From Coq Require Import Permutation.
-From C13 Require Import Types Model Proofs ProofsUnused ProofsDisable ProofsExit ProofsOutput ProofsWatch ProofsRender.
-From Gen Require Import ErrorsCore.
+From C13 Require Import Types Model Proofs ProofsUnused ProofsDisable ProofsExit ProofsOutput ProofsWatch ProofsRender ProofsSubcode.
+From Gen Require Import ErrorsCore ErrorCodes.
 Import ListNotations.
 Open Scope list_scope.
 Open Scope Z_scope.
@@ -168,6 +168,27 @@ Theorem json_error_iff : forall ts,
 Proof. exact json_has_error_iff. Qed.
 Print Assumptions json_error_iff.
 
+(* ---- `# type: ignore[code]` and sub-codes, on the code table regenerated from mypy/errorcodes.py ---- *)
+(* a coded comment ignores an enabled non-blocking info iff it lists the info's code or that code's parent *)
+Theorem coded_ignore_matches_exactly : forall c l i cd,
+  iblocker i = false -> icode i = Some cd -> enabledb c cd = true ->
+  dict_has (ignores c) l = true -> list_empty (dict_get (ignores c) l) = false ->
+  is_ignored_error (disabled c) (enabled c) l i (ignores c)
+  = mem_str (cname cd) (dict_get (ignores c) l)
+    || match csub cd with Some p => mem_str p (dict_get (ignores c) l) | None => false end.
+Proof. exact coded_ignore_exact. Qed.
+Print Assumptions coded_ignore_matches_exactly.
+
+(* sub_code_of is honoured exactly one level: for every code of errorcodes.py, `ignore[x]` matches iff x is the code
+   or its parent, and the parent is a code of the table that has no parent itself *)
+Theorem subcode_ignore_exact : forall c l i cd x,
+  In cd code_table -> iblocker i = false -> icode i = Some cd -> enabledb c cd = true ->
+  dict_has (ignores c) l = true -> dict_get (ignores c) l = [x] ->
+  (is_ignored_error (disabled c) (enabled c) l i (ignores c) = true <-> (x = cname cd \/ csub cd = Some x)) /\
+  (forall p, csub cd = Some p -> exists pc, In pc code_table /\ cname pc = p /\ csub pc = None).
+Proof. exact subcode_ignore_exact_proof. Qed.
+Print Assumptions subcode_ignore_exact.
+
 (* hypotheses are satisfiable, on non-trivial streams *)
 Definition ex_c : cfg := mk_cfg [(7, ["misc"%string])] true false [] [] [] [].
 Definition ex_e1 := info0 0 3 0 [3] (Some (mk_ecode "arg-type" None true None)) true false false "bad arg" None "m".
@@ -210,3 +231,15 @@ Proof.
   split; [|split; [|split; [|split]]]; try (vm_compute; reflexivity);
     intros i [<-|[<-|[<-|[]]]]; vm_compute; auto; discriminate.
 Qed.
+
+Example ex_subcode :
+  let ma := mk_ecode "method-assign" (Some "assignment"%string) true None in
+  let c := mk_cfg [(7, ["assignment"%string]); (8, ["method-assign"%string]); (9, ["misc"%string])] true false [] [] [] [] in
+  let i := fun l => info0 0 l 0 [l] (Some ma) true false false "m" None "t" in
+  let a := fun l => info0 0 l 0 [l] (Some (mk_ecode "assignment" None true None)) true false false "m" None "t" in
+  In ma code_table /\ enabledb c ma = true /\
+  (* the parent's name and the own name match a method-assign error; misc does not *)
+  ignoredb c 7 (i 7) = true /\ ignoredb c 8 (i 8) = true /\ ignoredb c 9 (i 9) = false /\
+  (* the sub-code's name does not match the parent's errors *)
+  ignoredb c 8 (a 8) = false.
+Proof. vm_compute. repeat split; auto 40. Qed.
